@@ -56,7 +56,7 @@ def run_tests(wt, targets):
         return True, "no test targets"
     env = {"PYTHONPATH": f"{wt}/src"}
     xml = f"{wt}/.seed_junit.xml"
-    rc, out = sh(f"/venv/bin/python -m pytest -q -p no:cacheprovider --timeout=900 -n 10 --junitxml={xml} " + " ".join(targets), cwd=wt, env=env, timeout=5400)
+    rc, out = sh(f"/venv/bin/python -m pytest -q -p no:cacheprovider --timeout=900 --no-cov -n 6 --junitxml={xml} " + " ".join(targets), cwd=wt, env=env, timeout=5400)
     tail = out.strip().splitlines()[-1] if out.strip() else ""
     if rc == 0:
         return True, f"parallel: {tail}"
